@@ -1,11 +1,14 @@
 (* Driver for the C14 model (res/Own.v): one real run per stdin line (the `(run ...)` expression
    printed by harness qv_own), replayed event by event on the extracted automaton.
 
-   in : (run ... (steps STEP...) ...)      STEP = (term p) | (ev EVENT (calls CALL...) (own ...))
+   in : (run ... (steps STEP...) ...)      STEP = (term p) | (ev EVENT (calls CALL...) (watch p..) (own ...))
         the EVENT and — for an effect request — the backend's ANSWER found in the real CALLs are the
         model's inputs; the real calls/own are ignored here (the checker diffs them).
-   out: (model (steps STEP'...) (final (own (r p)..)) (dead p..) (pending p..) (next n) (closes r..))
-        STEP' = (term p) | (ev EVENT' (calls CALL'..) (own (r p)..))   CALL' = (exec p EFF) | (close r)
+   out: (model (steps STEP'...) (final (own (r p)..)) (dead p..) (pending p..) (next n) (closes r..)
+               (classes (early b) (f47 b) (stale-transfer b) (fresh b))   the Coq monitors of res/Own.v
+               (watched p..))   WatchProcess commands not yet answered at the end (multiset)
+        STEP' = (term p) | (ev EVENT' (calls CALL'..) (watch p..) (own (r p)..))   CALL' = (exec p EFF) | (close r)
+        (watch p..) = the WatchProcess commands the model sends in the step
         own sorted by resource id; the closes of one step sorted (HashMap iteration order is not
         observable); EVENT' = EVENT with the child pid the MODEL allocates for a spawn. *)
 open Own_model
@@ -113,30 +116,32 @@ let run_line (line : string) : string =
           | Sexp.List [Sexp.Atom "send"; target; v; from] ->
             (ESend ((match from with Sexp.Atom "?" -> N0 | f -> natom f), natom target, val_of v), Sexp.to_string ev)
           | Sexp.List [Sexp.Atom "results"; _; Sexp.List ps] -> (EResults (List.map natom ps), Sexp.to_string ev)
+          | Sexp.List [Sexp.Atom "terminated"; p] -> (EWatchReport (natom p), Sexp.to_string ev)
           | _ -> (EOther, Sexp.to_string ev) in
         let calls = new_calls !st e in
+        let before = List.length (!st).watched in
         st := step !st e;
         hist := e :: !hist;
-        Buffer.add_string out (Printf.sprintf " (ev %s %s %s)" text (calls_text calls) (own_text (!st).owner))
+        (* WatchProcess commands sent in this step = entries added in front of `watched` *)
+        let added = List.length (!st).watched - before in
+        let rec firstn n l = if n <= 0 then [] else match l with [] -> [] | x :: t -> x :: firstn (n - 1) t in
+        let watches = List.rev (firstn added (!st).watched) in
+        let watch_text = "(watch" ^ String.concat "" (List.map (fun p -> " " ^ string_of_n p) watches) ^ ")" in
+        Buffer.add_string out (Printf.sprintf " (ev %s %s %s %s)" text (calls_text calls) watch_text (own_text (!st).owner))
       | _ -> failwith "bad step") steps;
   let s = !st in
   let ns l = String.concat "" (List.map (fun p -> " " ^ string_of_n p) l) in
   let h = List.rev !hist in
   let b x = if x then "true" else "false" in
   let rec nodup = function [] -> true | x :: t -> not (List.mem x t) && nodup t in
-  let f10 = List.filter_map (fun (r, p) ->
-      if memb p s.dead then
-        let (rep, giv) = f10_scan p r init false false h in
-        Some (Printf.sprintf " (%s %s %s %s)" (string_of_n r) (string_of_n p) (b rep) (b giv))
-      else None) s.owner in
   Buffer.add_string out
-    (Printf.sprintf ") (final %s) (dead%s) (pending%s) (next %s) (closes%s) (classes (early %s) (f47 %s) (f48 %s) (f49 %s) (fresh %s)) (f10%s))"
+    (Printf.sprintf ") (final %s) (dead%s) (pending%s) (next %s) (closes%s) (classes (early %s) (f47 %s) (stale-transfer %s) (fresh %s)) (watched%s))"
        (own_text s.owner)
        (ns (List.sort compare s.dead |> List.sort_uniq compare)) (ns s.pending) (string_of_n s.next_pid)
        (ns (closes s.log))
        (b (anyb early_reportb init h)) (b (anyb stale_useb init h)) (b (anyb stale_transferb init h))
-       (b (anyb foreign_transferb init h)) (b (nodup (List.map int_of_n (issued h))))
-       (String.concat "" f10));
+       (b (nodup (List.map int_of_n (issued h))))
+       (ns (List.sort compare s.watched)));
   Buffer.contents out
 
 let () =
